@@ -35,6 +35,9 @@ var out *Out
 var root string
 var debug = os.Getenv("VH_DEBUG") != ""
 
+// growSteps: a solo opener of a grow scenario is through its extension after this many scheduling points.
+const growSteps = 40
+
 const (
 	pageSize = 16384
 	numHash  = 512
@@ -139,11 +142,28 @@ func scenario(kind string, fixed []int, kills []int, nth int) {
 			panic(err)
 		}
 		h.Close()
+	case "grow", "grow-fault":
+		// a valid file whose first page is nearly full: every opener's (long) record needs the file to grow
+		h, err := counter.VerifOpenHandle(path, meta)
+		if err != nil {
+			panic(err)
+		}
+		for i := 0; i < 3; i++ {
+			if _, m1, err := h.NewCounter("fill" + strconv.Itoa(i) + strings.Repeat("f", 4070)); err != nil || m1 != nil {
+				panic("prefill")
+			}
+		}
+		h.Close()
 	}
+	curLimit := uint32(0)
 	sizeHdr := func() (int64, bool) {
 		d, err := os.ReadFile(path)
 		if err != nil {
 			return 0, false
+		}
+		curLimit = 0
+		if len(d) >= int(H)+4 && bytes.HasPrefix(d, hdr) {
+			curLimit = le32(d, H)
 		}
 		return int64(len(d)), bytes.HasPrefix(d, hdr)
 	}
@@ -151,11 +171,21 @@ func scenario(kind string, fixed []int, kills []int, nth int) {
 
 	ts := make([]*tstate, nth)
 	tids := make([]int, nth)
+	grow := strings.HasPrefix(kind, "grow")
 	for i := range ts {
 		ts[i] = &tstate{killAt: -1, name: names[rnd.Intn(len(names))]}
+		if grow {
+			ts[i].name = "long" + strconv.Itoa(rnd.Intn(2)) + strings.Repeat("g", 4000)
+		}
 		if kills != nil {
 			ts[i].killAt = kills[i]
 		}
+	}
+	faulted := false
+	if kind == "grow-fault" {
+		// one write or open or stat of somebody fails (no partial effect)
+		vosc.Reset(map[int]int{rnd.Intn(14): Pick(rnd, []int{vosc.KENOSPC, vosc.KEIO})})
+		faulted = true
 	}
 	vosc.Yielding = true
 	s := vsched.New(false)
@@ -241,7 +271,7 @@ func scenario(kind string, fixed []int, kills []int, nth int) {
 		}
 		sz, hd := sizeHdr()
 		lab := strings.Fields(pre.Label + " -")[0]
-		events = append(events, "s", I(int64(i)), phase, lab, I(sz), B(hd), B(ts[i].opened != ""))
+		events = append(events, "s", I(int64(i)), phase, lab, I(sz), B(hd), B(ts[i].opened != ""), U(uint64(curLimit)))
 		nev++
 		if debug {
 			fmt.Fprintf(os.Stderr, "  t%d %s %s -> size=%d hdr=%v opened=%q\n", i, phase, lab, sz, hd, ts[i].opened)
@@ -250,7 +280,8 @@ func scenario(kind string, fixed []int, kills []int, nth int) {
 	// final file
 	d, _ := os.ReadFile(path)
 	recs, walkOK := linked(d, H)
-	fields := []string{"cr", kind, status, U(uint64(H)), I(s0), B(h0), I(int64(nth)), I(int64(nev))}
+	vosc.Reset(nil)
+	fields := []string{"cr", kind, status, B(faulted), U(uint64(H)), I(s0), B(h0), I(int64(nth)), I(int64(nev))}
 	fields = append(fields, events...)
 	for i, st := range ts {
 		op, rs := st.opened, st.result
@@ -281,7 +312,7 @@ func main() {
 	}
 	defer os.RemoveAll(root)
 	counter.VerifMemmapHook(func(base uintptr, n int) {})
-	kinds := []string{"absent", "absent", "empty", "header-only", "partial", "short-by-2", "valid"}
+	kinds := []string{"absent", "absent", "empty", "header-only", "partial", "short-by-2", "valid", "grow", "grow", "grow-fault", "grow-fault"}
 	c := 0
 	// designated: the creator is killed between its two writes (after k = 0..6 of its calls), a second process opens
 	for k := 0; k <= 6 && c < n; k++ {
@@ -308,6 +339,7 @@ func main() {
 	}
 	for ; c < n; c++ {
 		nth := 2 + rnd.Intn(2)
+		kind := Pick(rnd, kinds)
 		var kills []int
 		if rnd.Chance(60) {
 			kills = make([]int, nth)
@@ -315,10 +347,14 @@ func main() {
 				kills[i] = -1
 				if rnd.Chance(50) {
 					kills[i] = rnd.Intn(9)
+					if strings.HasPrefix(kind, "grow") {
+						// anywhere in the open or in the extension that follows it
+						kills[i] = rnd.Intn(growSteps)
+					}
 				}
 			}
 		}
-		scenario(Pick(rnd, kinds), nil, kills, nth)
+		scenario(kind, nil, kills, nth)
 	}
 	out.Close()
 }
